@@ -2,6 +2,7 @@ package relayproc
 
 import (
 	"os"
+	"runtime"
 	"testing"
 
 	"github.com/lavanet/lava/v5/utils"
@@ -12,6 +13,11 @@ import (
 func TestMain(m *testing.M) {
 	// the code under test logs every relay decision; keep only fatal output
 	utils.SetGlobalLoggingLevel("fatal")
+	// C33 is single-threaded and C34 mostly sleeps on timers: a few Ps are enough, and 16 shards
+	// with 16 Ps each only fight each other (and everything else on the box) for the scheduler
+	if runtime.GOMAXPROCS(0) > 4 {
+		runtime.GOMAXPROCS(4)
+	}
 	code := m.Run()
 	ev.Flush()
 	os.Exit(code)
